@@ -297,6 +297,8 @@ pub struct HtlcSpec {
     pub label: RefLabel,
     /// delivery gate (retry sets)
     pub gate: Gate,
+    /// hex string sent as htlc.payment_hash instead of hex(htlc_hash) (lengths other than 32 bytes)
+    pub hash_hex_override: Option<String>,
 }
 
 #[derive(Clone, Copy, Debug, PartialEq)]
@@ -367,7 +369,7 @@ pub fn request_json(s: &HtlcSpec, height: u32) -> Value {
             "amount_msat": s.amount_msat,
             "cltv_expiry": s.cltv_expiry,
             "cltv_expiry_relative": (s.cltv_expiry as i64) - (height as i64),
-            "payment_hash": hex::encode(s.htlc_hash),
+            "payment_hash": s.hash_hex_override.clone().unwrap_or_else(|| hex::encode(s.htlc_hash)),
         },
         "forward_to": "0000000000000000000000000000000000000000000000000000000000000000",
     })
